@@ -212,7 +212,7 @@ def cmp_text(lt, lty, rt, rty, sym, op):
             raise Untranslatable(f"== on {lty},{rty}")
         return body if sym == "==" else f"(!{body})"
     if sym in ("<", "<=", ">", ">="):
-        if lty not in ("time", "int") or rty not in ("time", "int"):
+        if not ((lty in ("time", "int") and rty in ("time", "int")) or (lty == "dur" and rty == "dur")):
             raise Untranslatable(f"order comparison on {lty},{rty}")
         return f"(decide ({paren(lt)} {'≤' if sym == '<=' else '≥' if sym == '>=' else sym} {paren(rt)}))"
     if sym == "in":
@@ -288,6 +288,11 @@ def tr_call(e, cx):
                 return (f"(Py.Str.upperAscii {paren(recv_t)})", "str", False)
         raise Untranslatable(f"method {f.attr} on {recv_ty}")
     if isinstance(f, ast.Name):
+        if f.id == "_as_list" and len(e.args) == 1:
+            a, aty, am = tr_expr(e.args[0], cx)
+            if not aty.startswith("list:") or am:
+                raise Untranslatable("_as_list of " + aty)
+            return (a, aty, am)
         if f.id == "tzify" and len(e.args) == 1:
             a, aty, am = tr_expr(e.args[0], cx)
             if aty != "tval":
@@ -297,6 +302,8 @@ def tr_call(e, cx):
             return (f"(tzify {paren(a)})", "time", False)
         if f.id == "timedelta" and len(e.args) == 1 and isinstance(e.args[0], ast.Constant) and e.args[0].value == 1:
             return ("Py.oneDay", "dur", False)
+        if f.id == "timedelta" and len(e.args) == 1 and isinstance(e.args[0], ast.Constant) and e.args[0].value == 0:
+            return ("(0 : Int)", "dur", False)
         if f.id == "getattr" and len(e.args) == 3:
             # getattr(x.dt, "time", None): non-None iff x.dt is a datetime
             a, aty, am = tr_expr(e.args[0], cx)
